@@ -39,6 +39,7 @@ func runC07(c *Ctx) {
 	sentinelIdentity(c, "R8")
 	fuzzLimitGuarded(c, "R9")
 	c.shared("R7", "C02/R3", "next and exit are consumed exactly by the rule drivers: every test against errNext / errExit sits in a driver, so a `next` leaves the current rule list and an `exit` the run from any nesting of statements", nil, c02R3)
+	c.shared("R14", "C11/R2", "next and exit leave the rule / the program at once at any nesting, the right operand of && / || included: the functions of the evaluator hand on every error of a sub-evaluation (a shadowed error variable swallows the signal and the following statements still run)", func(o Obligation) bool { return strings.HasPrefix(o.Key, "(*lang.Evaluator).") }, func(s *Ctx) { c11R2(s, "R2") })
 	c.shared("R13", "C15/R2", "for-in visits every element once, in order, whatever the body does to the array: the loop ranges the slice it started with, and no array method moves or clears cells inside that backing array (pop and popfirst only re-slice, push appends)", keyHas("array.pop", "array.popfirst", "array.push"), func(s *Ctx) { c15R2(s, nativeMethods(s.P)) })
 	c.shared("R12", "C01/R2", "break and continue are accepted in every loop nesting: the parser's in-loop flag is set for a loop body and restored to what it was before (not cleared) when the body ends, so the rest of an enclosing loop's body is still inside a loop", keyHas("region inLoop"), func(s *Ctx) { scopeAgreement(s, "R2") })
 	mapRangeOrder(c, "R5")
@@ -754,10 +755,22 @@ func fuzzLimitGuarded(c *Ctx, rule string) {
 // `{ … }` every successfully parsed statement is appended to the block's list before the next one is
 // parsed: no condition (a guess that the statement is unreachable, say) decides whether it is kept.
 func blockKeepsEveryStatement(c *Ctx, rule string) {
+	listKeepsEveryItem(c, rule, "(*Parser).block", "Statement", "block-keeps-every-statement", "every parsed statement is appended before the next one is parsed", "after a statement was parsed successfully the next one can be reached without the append: some statements of a block are parsed and dropped (e.g. on a guess that they are unreachable), so code after an if / else-if chain silently disappears")
+}
+
+// programKeepsEveryRule: the program is the list of the rules (and functions) written in it. In Parse
+// every successfully parsed rule is appended to the list before the next one is parsed: no condition
+// (an empty body, say) decides whether a rule is kept — its pattern still runs once per element.
+func programKeepsEveryRule(c *Ctx, rule string) {
+	listKeepsEveryItem(c, rule, "(*Parser).Parse", "Rule", "program-keeps-every-rule", "every parsed rule is appended before the next one is parsed", "after a rule was parsed successfully the next one can be reached without the append: a rule that is written in the program is dropped (e.g. because its body is empty), although its pattern is evaluated once per element and may count, assign, or end the element with next / exit")
+	listKeepsEveryItem(c, rule, "(*Parser).Parse", "ExprFunction", "program-keeps-every-function", "every parsed function is appended before the next item is parsed", "after a function was parsed successfully the next item can be reached without the append: a function written in the program is dropped")
+}
+
+func listKeepsEveryItem(c *Ctx, rule, fnName, itemType, key, okText, badText string) {
 	p := c.P
-	blk := p.LangFunc("(*Parser).block")
+	blk := p.LangFunc(fnName)
 	if blk == nil {
-		c.undecided(rule, "block-keeps-every-statement", "", "anchor (*Parser).block not found")
+		c.undecided(rule, key, "", "anchor "+fnName+" not found")
 		return
 	}
 	n := 0
@@ -767,7 +780,7 @@ func blockKeepsEveryStatement(c *Ctx, rule string) {
 			continue
 		}
 		callee := cv.Call.StaticCallee()
-		if callee == nil || callee.Signature.Results().Len() != 2 || !isLangNamed(callee.Signature.Results().At(0).Type(), "Statement") {
+		if callee == nil || callee.Signature.Results().Len() != 2 || !isLangNamed(callee.Signature.Results().At(0).Type(), itemType) {
 			continue
 		}
 		// the loop around the call
@@ -783,7 +796,7 @@ func blockKeepsEveryStatement(c *Ctx, rule string) {
 			continue
 		}
 		n++
-		// the append of this call's statement
+		// the append of this call's item
 		var app *ssa.Call
 		allInstrs(blk, func(in ssa.Instruction) {
 			a, ok := in.(*ssa.Call)
@@ -799,7 +812,7 @@ func blockKeepsEveryStatement(c *Ctx, rule string) {
 			}
 		})
 		if app == nil {
-			c.violated(rule, "block-keeps-every-statement", p.InstrPos(cv), "the statement parsed here is not appended to the block's list")
+			c.violated(rule, key, p.InstrPos(cv), "the item parsed here is not appended to the list")
 			continue
 		}
 		okEdge := cv.Block()
@@ -808,9 +821,9 @@ func blockKeepsEveryStatement(c *Ctx, rule string) {
 				okEdge = s
 			}
 		}
-		c.check(!canSkip(okEdge, app.Block(), hdr), rule, "block-keeps-every-statement", p.InstrPos(app), "every parsed statement is appended before the next one is parsed", "after a statement was parsed successfully the next one can be reached without the append: some statements of a block are parsed and dropped (e.g. on a guess that they are unreachable), so code after an if / else-if chain silently disappears")
+		c.check(!canSkip(okEdge, app.Block(), hdr), rule, key, p.InstrPos(app), okText, badText)
 	}
 	if n == 0 {
-		c.undecided(rule, "block-keeps-every-statement", p.Pos(blk.Pos()), "no statement parse inside a loop found in (*Parser).block")
+		c.undecided(rule, key, p.Pos(blk.Pos()), "no parse of a "+itemType+" inside a loop found in "+fnName)
 	}
 }
